@@ -52,6 +52,17 @@ namespace Prog
 
 variable {Var Val ε α β : Type}
 
+/-- the caller handles the refusal itself: an `abort e` of `p` becomes the value `.error e` and the transaction goes on
+    (the writes `p` made before aborting stay in the log, exactly as in fast-stm when the closure swallows an
+    `Err(TransactionError::Abort(e))` instead of propagating it with `?`) -/
+def attempt : Prog Var Val ε α → Prog Var Val ε (Except ε α)
+  | .ret a => .ret (.ok a)
+  | .read v k => .read v (fun x => (k x).attempt)
+  | .write v x k => .write v x k.attempt
+  | .abort e => .ret (.error e)
+  | .retry => .retry
+  | .panic => .panic
+
 def bind : Prog Var Val ε α → (α → Prog Var Val ε β) → Prog Var Val ε β
   | .ret a, f => f a
   | .read v k, f => .read v (fun x => (k x).bind f)
